@@ -217,7 +217,8 @@ struct SeqEngine final : Engine {
     auto vary_bound = [&](std::string k) -> std::string {
       if (!varbound || k.empty()) return k;
       const auto x = r.below(100);
-      if (x < 35) k.resize(1 + r.below(k.size()));
+      if (x < 3) k.clear();  // the empty bound: below every key
+      else if (x < 35) k.resize(1 + r.below(k.size()));
       else if (x < 55) { const size_t extra = 1 + r.below(3); for (size_t i = 0; i < extra && k.size() < 60; i++) k.push_back(static_cast<char>(r.chance(0.4) ? 0x00 : (r.chance(0.5) ? 0xFF : static_cast<int>(r.below(256))))); }
       return k;
     };
@@ -277,7 +278,8 @@ struct SeqEngine final : Engine {
           // never stored (the pool is prefix-free) and never changes the key set, so get must miss and remove must fail
           o.kind = br.chance(0.5) ? S_GET : S_REMOVE;
           std::string k = r.chance(0.7) ? pick_present() : pool[r.below(pool.size())];
-          if (k.size() > 1 && br.chance(0.6)) k.resize(1 + br.below(k.size() - 1));
+          if (br.chance(0.04)) k.clear();  // the empty key: a proper prefix of every key
+          else if (k.size() > 1 && br.chance(0.6)) k.resize(1 + br.below(k.size() - 1));
           else { const size_t extra = 1 + br.below(3); for (size_t e = 0; e < extra; e++) k.push_back(static_cast<char>(br.chance(0.4) ? 0x00 : static_cast<int>(br.below(256)))); }
           o.key = k;
         } else if (y < 0.22) {
@@ -306,8 +308,10 @@ struct SeqEngine final : Engine {
           }
         }
       }
-      if (o.key2.empty()) o.key2 = std::string(static_cast<size_t>(L), '\0');
-      if (o.key.empty()) o.key = std::string(static_cast<size_t>(L), '\0');
+      // unused key fields are zero-filled; an empty key or bound produced on purpose (varbound) stays empty
+      const bool key_used = o.kind == S_GET || o.kind == S_REMOVE || o.kind == S_SCAN_FROM || o.kind == S_SCAN_RANGE;
+      if (o.key2.empty() && !(varbound && o.kind == S_SCAN_RANGE)) o.key2 = std::string(static_cast<size_t>(L), '\0');
+      if (o.key.empty() && !(varbound && key_used)) o.key = std::string(static_cast<size_t>(L), '\0');
       // C10: statistics and memory accounting must match the key set after *failed* operations as well
       if (focus == 10 && (o.kind == S_INSERT || o.kind == S_REMOVE) && fr.chance(0.04)) o.c = fr.range(1, 2);
       ops.push_back(std::move(o));
